@@ -87,6 +87,10 @@ def get_formula_fname(script_fname: str, environment: Optional[Environment]=None
 
 class SmtLibExecutionCache(object):
     """Execution environment for SMT2 script execution"""
+
+    # Marks, in the stack of bindings of a name, a define-fun / define-sort
+    _DEFINED = object()
+
     def __init__(self, env: Environment):
         self.substitute = env.substituter.substitute
         self.keys: Dict[str, List[Union[str, Callable, PySMTType, FNode, _TypeDecl]]] = {}
@@ -104,6 +108,9 @@ class SmtLibExecutionCache(object):
 
     def define(self, name: str, parameters: List[FNode], expression: Union[PySMTType, FNode, PartialType, str]):
         self.definitions[name] = (parameters, expression)
+        # The definition is the innermost binding of the name, until a
+        # binder (let, quantifier, parameter) shadows it
+        self.bind(name, SmtLibExecutionCache._DEFINED)
 
     def _define_adapter(self, formal_parameters: List[FNode], expression: FNode) -> Callable:
         def res(*actual_parameters):
@@ -114,20 +121,16 @@ class SmtLibExecutionCache(object):
 
     def get(self, name: str) -> Any:
         """Returns the last binding for 'name'"""
-        if name in self.definitions:
-            (parameters, expression) = self.definitions[name]
-            if len(parameters) == 0:
-                return expression
-            assert isinstance(expression, FNode)
-            return self._define_adapter(parameters, expression)
-        elif name in self.keys:
-            lst = self.keys[name]
-            if len(lst) > 0:
-                return lst[-1]
-            else:
-                return None
-        else:
+        lst = self.keys.get(name)
+        if not lst:
             return None
+        if lst[-1] is not SmtLibExecutionCache._DEFINED:
+            return lst[-1]
+        (parameters, expression) = self.definitions[name]
+        if len(parameters) == 0:
+            return expression
+        assert isinstance(expression, FNode)
+        return self._define_adapter(parameters, expression)
 
     def update(self, value_map: Mapping[str, Union[_TypeDecl, FNode]]):
         """Binds all the symbols in 'value_map'"""
